@@ -78,6 +78,15 @@ def handwritten(did):
         E = enum(did + len(out), vs, repr_=rp, generics="tynd")
         E["anchor_rs"], E["absvals"], E["repr_mode"] = "0", [], "plain"
         out.append(E)
+    # attributes that belong to EnumString (a catch-all `default`, `default_with` on a variant and on a field) mean nothing to from_repr:
+    # payloads are Default::default(), values without a variant give None
+    for rp in ("u8", "none", "i16"):
+        vs = [variant("Known"), variant("Retry", "tuple", [field("u8")], dwith="dw_u8"), variant("Other", "tuple", [field("String")], default=True),
+              variant("Cfg", "named", [field("i32", "n", dw="dw_i32"), field("bool", "b")]), variant("Gone", "tuple", [field("u8")], dis=True, dwith="dw_u8"),
+              variant("Last")]
+        E = enum(did + len(out), vs, repr_=rp)
+        E["anchor_rs"], E["absvals"], E["repr_mode"] = "0", [], "plain"
+        out.append(E)
     # a full byte: 256 variants on repr(u8), every value taken (some disabled); more variants than a byte on repr(u16)
     mk("u8", [("V%d" % k, 0, None, k % 37 == 5) for k in range(256)])
     mk("u16", [("W%d" % k, 0, None, k % 41 == 7) for k in range(300)])
